@@ -66,7 +66,10 @@ func TestPlan(t *testing.T) {
 		}
 		sh := ev.RapidShards(prefix, test, n, c, nil)
 		for i := range sh {
-			sh[i].TimeoutS = 3600
+			sh[i].TimeoutS = 900
+			if ev.Thorough() {
+				sh[i].TimeoutS = 3600
+			}
 		}
 		p.Shards = append(p.Shards, sh...)
 	}
